@@ -416,6 +416,10 @@ def main(argv):
                 run_kills(ck, hb, job, ref, work, kills, timed, ctx)
             for (job, _) in plan:
                 B.rmtree(os.path.join(work, "cache-%s%s%d" % (job.mode[0], job.kind, job.C)))
+    except B.Infrastructure as e:
+        B.rmtree(work)
+        print("INFRASTRUCTURE-ERROR: libocca.so of %s cannot be loaded (%s); no verdict" % (BUILD, e))
+        sys.exit(2)
     finally:
         B.rmtree(work)
     ck.cov["counters"]["h1_scenarios"] = ctx["scenarios"]
